@@ -117,24 +117,30 @@ def run(chk):
 
     # ---- faults that occur without injection (non-UTF-8 project file): model = the corresponding fault point
     nat_model = core.run_driver([cc.line("valid", "file", "json", fault="copyRead"),
-                                 cc.line("valid", "stdin", "json", fault="stdinWrite")])
+                                 cc.line("valid", "stdin", "json", fault="stdinWrite"),
+                                 cc.line("valid", "file", "json", fault="echo"),
+                                 cc.line("valid", "stdin", "json", fault="echo")])
     ndis = []
     for rq, ans in zip(nat_reqs, nat_out):
         r = junline(ans)
         if "_raw" in r:
             raise core.HarnessFault(f"cli_natural worker failed: {ans[:400]}")
-        for channel, m in zip(("file", "stdin"), nat_model):
+        for channel, m in zip(("file", "stdin", "gone", "gone-stdin"), nat_model):
             f = cc.fields(m)
             want = f"exit {f['exit']} left {f['left']}"
             if r[channel]["line"] != want:
                 ndis.append({"stream": "cli-natural", "input": jline(rq), "channel": channel, "model": want, "impl": r[channel]["line"]})
             if not r[channel]["line"].endswith("left -"):
-                found.append(("F43: a project file that is not valid UTF-8 leaves " + str(r[channel]["new"]) + " behind",
-                              {"stream": "cli-natural", "input": jline(rq), "impl": r, "finding": "F43", "kind": "F43"}))
+                if channel.startswith("gone"):
+                    found.append((f"a report nobody reads (stdout closed, {channel}): the run leaves " + str(r[channel]["new"]) + " behind",
+                                  {"stream": "cli-natural", "input": jline(rq), "channel": channel, "impl": r, "finding": None, "kind": "trace"}))
+                else:
+                    found.append(("F43: a project file that is not valid UTF-8 leaves " + str(r[channel]["new"]) + " behind",
+                                  {"stream": "cli-natural", "input": jline(rq), "impl": r, "finding": "F43", "kind": "F43"}))
             if r[channel]["stdout_bytes"]:
                 found.append(("non-UTF-8 input: bytes on stdout although the run failed", {"stream": "cli-natural", "input": jline(rq), "impl": r, "finding": None, "kind": "stdout"}))
-    chk.cov["streams"]["cli-natural"] = {"cases": 2 * len(nat_reqs), "disagreements": len(ndis)}
-    chk.cov["evaluations"] += 2 * len(nat_reqs)
+    chk.cov["streams"]["cli-natural"] = {"cases": 4 * len(nat_reqs), "disagreements": len(ndis)}
+    chk.cov["evaluations"] += 4 * len(nat_reqs)
     # ---- concurrent runs.  Model: by `noninterference`/`interleaved_no_trace` every process equals its solitary
     # run and nothing is left, whatever the interleaving; the model's answer for an experiment is therefore
     # "same-as-solitary left -".  Implementation: every process compared byte for byte with the real solitary run.
